@@ -107,6 +107,17 @@ CLAIMS = {
         "note": _TB,
         "technique": "dominance on CFG, expression-shape rule, switch coverage, database field agreement",
     },
+    "C18": {
+        "text": "Decides one clause (\"reports failures instead of overrunning\", null termination) for the formatting entry points of the string class and "
+                "the arena: the value returned by vsnprintf() - the length the output would have had - is used as an index, a copy length or the new size "
+                "after formatting in place only where it is shown (linear reasoning over dominating comparisons, min() bounds) to stay inside the size "
+                "given to the call. Does not decide the abstract-data-type behaviour of vector / hash / tree / list / bit set / pool / string under "
+                "operation histories (not visible in code shape; two further structural facts - dangling block link, reserve before unchecked append - "
+                "are decided under C15 / C16).",
+        "design_ref": "DESIGN.md section 3 / C18",
+        "note": _TB,
+        "technique": "linear-arithmetic bound proof over reaching definitions and dominating comparisons at every use of a (v)snprintf result",
+    },
     "C20": {
         "text": "Decides name-table clauses C20.a-c: enumerator-to-text maps equal the enumerator names, x86 register name tables equal the architectural "
                 "names for every (type, id) (exhaustive), the machine-code column is fed from the writer's buffer range and its hex runs tile the instruction bytes (linear forms), a register is printed with its own type (base/index pairing). Does not decide operand rendering per value.",
@@ -121,7 +132,5 @@ NOT_APPLICABLE = {
            "no structural necessary condition is within sound static reach (error discipline of the allocator is covered under C15)",
     "C07": "frame layout is arithmetic over sizes/alignments/masks and the guarantee is about machine state after executing the prolog/epilog; a mirror "
            "lint (push has a pop) would accept wrong orders/offsets and fire on harmless restructurings - a brittle proxy",
-    "C18": "ADT equivalence of containers under operation histories is not visible in code shape; the structural facts found (dangling block link, "
-           "reserve before unchecked append) are necessary conditions of C15/C16 and are decided there",
     "C19": "constant-pool offsets, deduplication and gap reuse are history-dependent arithmetic; no structural clause is a genuine necessary condition",
 }
